@@ -49,6 +49,7 @@ ALPHABET = [
     ("npscalar:ar_order", 0), ("npscalar:ma_order", 0), ("npscalar:lag", 0), ("npscalar:sampling", 0),
     ("npscalar:scale", 0), ("npscalar:NFFT", 0),
     ("inject:0:before", 1), ("inject:0:after", 0), ("inject:1:before", 1), ("inject:1:after", 0),
+    ("inject:2:before", 0), ("inject:2:after", 0), ("inject:3:before", 0),
     ("inject:0:before:LinAlgError", 0), ("inject:0:before:FloatingPointError", 0),
     ("inject:0:before:ZeroDivisionError", 0), ("inject:1:after:LinAlgError", 0),
 ]
